@@ -15,3 +15,4 @@ def load_all():
     from . import quantity_values  # noqa
     from . import registry  # noqa
     from . import construct  # noqa
+    from . import fixedarray  # noqa
